@@ -10,7 +10,8 @@
    histories whose typed names satisfy `tn_wf` (authority non-empty, no '/' in namespace and name, name
    segments [A-Za-z][0-9A-Za-z_]* — outside it Go's TypedName.Parts panics with InvalidCharactersInName). *)
 From Coq Require Import NArith Bool List.
-From PcoreV Require Import Model.Base Model.Loader Model.LoaderSpec Proofs.LoaderNames Proofs.LoaderProofs.
+From PcoreV Require Import Model.Base Model.Loader Model.LoaderSpec Proofs.LoaderNames Proofs.LoaderProofs
+  Proofs.LoaderCorollaries.
 Import ListNotations.
 
 (* Refinement: for EVERY history of construct / define / load / load-entry / get-entry / has-entry / discover
@@ -36,6 +37,91 @@ Theorem C12_no_fault :
     Forall2 (fun o r => out_ok o r = true) ops (outs cfg ops).
 Proof. exact results_classified. Qed.
 Print Assumptions C12_no_fault.
+
+(* write-once: a binding a loader owns stays what it is, whatever happens afterwards *)
+Theorem C12_write_once :
+  forall cfg ops ops' l k v, cfg_wf cfg = true -> forallb op_wf (ops ++ ops') = true ->
+    assoc k (own_binds (abs (fst (run cfg ops))) l) = Some v ->
+    assoc k (own_binds (abs (fst (run cfg (ops ++ ops')))) l) = Some v.
+Proof. exact write_once. Qed.
+Print Assumptions C12_write_once.
+
+(* ... re-defining it with an equal value is a no-op that answers the existing binding, with a different
+   value it is rejected with a reported error; either way the bindings of all loaders stay as they are
+   (`result_after cfg ops o` is the result of operation o after the history ops) *)
+Theorem C12_redefine :
+  forall cfg ops l n v old, cfg_wf cfg = true -> forallb op_wf (ops ++ [ODefine l n v]) = true ->
+    l < length (fst (run cfg ops)) ->
+    spec_own_binding (abs (fst (run cfg ops))) l (norm n) = Some old ->
+    abs (fst (run cfg (ops ++ [ODefine l n v]))) = abs (fst (run cfg ops)) /\
+    result_after cfg ops (ODefine l n v) =
+      if val_same old v || val_equals old v then RDefined old
+      else if vty old && vty v then RErr ERedefineType else RErr ERedefine.
+Proof. exact redefine. Qed.
+Print Assumptions C12_redefine.
+
+(* stable resolution: as long as no proper ancestor of the loader gains a binding, a name that resolved
+   once resolves to the same value ever after *)
+Theorem C12_stable_resolution :
+  forall cfg ops ops' l n v, cfg_wf cfg = true -> forallb op_wf (ops ++ ops') = true -> op_wf (OLoad l n) = true ->
+    result_after cfg ops (OLoad l n) = RFound (Some v) ->
+    (forall p, ancestor (abs (fst (run cfg ops))) l p ->
+       own_binds (abs (fst (run cfg (ops ++ ops')))) p = own_binds (abs (fst (run cfg ops))) p) ->
+    result_after cfg (ops ++ ops') (OLoad l n) = RFound (Some v).
+Proof. exact stable_resolution. Qed.
+Print Assumptions C12_stable_resolution.
+
+(* misses are not sticky: after ANY history, if a lookup through a loader fails and the name is then
+   defined through that loader, the definition is accepted and the name resolves to the defined value *)
+Theorem C12_miss_not_sticky :
+  forall cfg ops l n v, cfg_wf cfg = true -> forallb op_wf ops = true -> op_wf (OLoad l n) = true ->
+    tn_auth (norm n) = cfg_auth cfg ->
+    result_after cfg ops (OLoad l n) = RFound None ->
+    result_after cfg (ops ++ [OLoad l n]) (ODefine l n v) = RDefined v /\
+    result_after cfg (ops ++ [OLoad l n; ODefine l n v]) (OLoad l n) = RFound (Some v).
+Proof. exact miss_not_sticky. Qed.
+Print Assumptions C12_miss_not_sticky.
+
+(* names differing only in letter case denote one entry: in any state the two operations have the same
+   effect and the same result *)
+Theorem C12_case_insensitive :
+  forall cfg st o o', op_case_variant o o' = true -> step cfg st o = step cfg st o'.
+Proof. exact case_insensitive. Qed.
+Print Assumptions C12_case_insensitive.
+
+(* discovery returns, in strictly increasing (sorted) order and therefore each once, exactly the map keys of
+   the names the loader lists (`listed`: bound by the loader and not resolved by its parent, or listed by its
+   parent; for a type-set loader the types of the set and the unshadowed names of its parent) that satisfy
+   the predicate; and every discovered name resolves through the loader *)
+Theorem C12_discover_exact :
+  forall cfg ops l P ks, cfg_wf cfg = true -> forallb op_wf ops = true ->
+    discover (S l) (fst (run cfg ops)) l P = DNames ks ->
+    strictly_sorted ks /\ NoDup ks /\
+    (forall k, In k ks <-> exists tn, listed (abs (fst (run cfg ops))) l tn /\ map_key tn = k /\ P tn = true) /\
+    (forall k tn, In k ks -> tn_of_key k = Some tn -> tn_wf tn = true -> map_key tn = k ->
+       spec_has (abs (fst (run cfg ops))) l tn = true).
+Proof. exact discover_exact. Qed.
+Print Assumptions C12_discover_exact.
+
+(* ... conversely, along loaders without a type set every name that resolves and satisfies the predicate is
+   discovered (through a type-set loader the relative names resolve without being listed, by design) *)
+Theorem C12_discover_complete_plain :
+  forall cfg ops l P ks tn, cfg_wf cfg = true -> forallb op_wf ops = true ->
+    discover (S l) (fst (run cfg ops)) l P = DNames ks ->
+    plain_chain (abs (fst (run cfg ops))) l ->
+    tn_of_key (map_key tn) = Some tn -> tn_wf tn = true ->
+    spec_has (abs (fst (run cfg ops))) l tn = true -> P tn = true ->
+    In (map_key tn) ks.
+Proof. exact discover_complete_plain. Qed.
+Print Assumptions C12_discover_complete_plain.
+
+(* a lookup, failed or not, never changes what any loader discovers: a cached miss is not listed (e8cb2ca) *)
+Theorem C12_lookup_not_discovered :
+  forall cfg ops o l P, cfg_wf cfg = true -> forallb op_wf (ops ++ [o]) = true ->
+    (match o with OLoad _ _ | OLoadEntry _ _ | OGetEntry _ _ | OHas _ _ | ODiscover _ _ => True | _ => False end) ->
+    discover (S l) (fst (run cfg (ops ++ [o]))) l P = discover (S l) (fst (run cfg ops)) l P.
+Proof. exact lookup_not_discovered. Qed.
+Print Assumptions C12_lookup_not_discovered.
 
 (* Non-vacuity: a concrete well-formed configuration and history over a chain of depth 3 and a type-set
    loader below the static loader — a miss, a definition after the miss, equal and different
@@ -82,3 +168,29 @@ Example C12_nonvacuous :
    RBadLoader] /\
   map project (outs ex_cfg ex_ops) = spec_outs ex_cfg ex_ops.
 Proof. vm_compute. repeat split; reflexivity. Qed.
+
+(* the hypotheses of the corollaries are satisfiable on that history: a miss followed by a definition, a
+   redefinition of a bound name, a resolved name with an ancestor, two case variants *)
+Example C12_nonvacuous_corollaries :
+  result_after ex_cfg (firstn 3 ex_ops) (OLoad 3 a_) = RFound None /\
+  tn_auth (norm a_) = cfg_auth ex_cfg /\
+  spec_own_binding (abs (fst (run ex_cfg (firstn 10 ex_ops)))) 3 (norm a_) = Some v0 /\
+  result_after ex_cfg (firstn 10 ex_ops) (OLoad 3 a_) = RFound (Some v0) /\
+  ancestor (abs (fst (run ex_cfg (firstn 10 ex_ops)))) 3 2 /\
+  op_case_variant (OLoad 3 a_) (OLoad 3 A_) = true /\
+  discover 4 (fst (run ex_cfg (firstn 16 ex_ops))) 3 (pred_eval PAll) = DNames [[114; 47; 120; 47; 97]%N] /\
+  plain_chain (abs (fst (run ex_cfg (firstn 16 ex_ops)))) 3 /\
+  spec_has (abs (fst (run ex_cfg (firstn 16 ex_ops)))) 3 (norm a_) = true.
+Proof.
+  repeat split; try (vm_compute; reflexivity).
+  - eapply anc_parent; vm_compute; reflexivity.
+  - intros q nd p ts Hq E K.
+    assert (Hq' : q = 3 \/ q = 2 \/ q = 1).
+    { destruct Hq as [->|Hq]; [tauto|]. right.
+      inversion Hq as [l0 nd0 p0 E0 P0|l0 nd0 p0 q0 E0 P0 A0]; subst; vm_compute in E0; injection E0 as <-; vm_compute in P0; injection P0 as <-.
+      - tauto.
+      - inversion A0 as [l1 nd1 p1 E1 P1|l1 nd1 p1 q1 E1 P1 A1]; subst; vm_compute in E1; injection E1 as <-; vm_compute in P1; injection P1 as <-.
+        + tauto.
+        + inversion A1 as [l2 nd2 p2 E2 P2|l2 nd2 p2 q2 E2 P2 A2]; subst; vm_compute in E2; injection E2 as <-; vm_compute in P2; discriminate. }
+    destruct Hq' as [->|[->| ->]]; vm_compute in E; injection E as <-; vm_compute in K; discriminate.
+Qed.
